@@ -44,6 +44,9 @@ class Node:
         return f"<{self.kind} {self.name} x{self.lo},{self.hi} {self.children or ''}>"
 
 
+import re as _re
+HEXH_NAME = _re.compile(r"^[0-9a-fA-F]+h$")
+
 OPS = {"$and": "and", "$or": "or", "$not": "not", "$and_any_order": "any"}
 REG_FAMILIES = {"&genreg": "gen", "&indreg": "ind", "&stackreg": "stack", "&basereg": "base"}
 WIDTH_SUFFIXES = {"64": "64", "32": "32", "16": "16", "8h": "8h", "8l": "8l"}
@@ -171,6 +174,8 @@ class Parser:
                 return Node("olit", ANY)
             if s.startswith("$") or s.startswith("@") or s == "times":
                 raise Unsupported(s)
+            if HEXH_NAME.match(s) and s.lower() not in ("ah", "bh", "ch", "dh"):
+                s = "0x" + s[:-1]          # Intel-style literal: 10h names the text 0x10 (pinned by the repository's unit test)
             return Node("olit", s)
         if not isinstance(x, dict) or not x:
             raise Unsupported("operand of unsupported type")
